@@ -24,6 +24,61 @@ pub type Index = usize;
 
 const MAX_ANALYSIS_DURATION: Duration = Duration::from_secs(10);
 
+/// Verification hooks: a per-thread budget on the number of propagation passes
+/// (stands in for the elapsed-time bail-out), and a count of the passes run.
+#[cfg(feature = "verif")]
+pub mod verif_hooks {
+    use std::cell::Cell;
+
+    thread_local! {
+        static VALUE_BUDGET: Cell<Option<usize>> = const { Cell::new(None) };
+        static DEGREE_BUDGET: Cell<Option<usize>> = const { Cell::new(None) };
+        static VALUE_PASSES: Cell<usize> = const { Cell::new(0) };
+        static DEGREE_PASSES: Cell<usize> = const { Cell::new(0) };
+    }
+
+    /// Limit the number of value propagation passes (`None` = unlimited) and
+    /// reset the pass counter.
+    pub fn set_value_budget(budget: Option<usize>) {
+        VALUE_BUDGET.with(|b| b.set(budget));
+        VALUE_PASSES.with(|p| p.set(0));
+    }
+
+    /// Limit the number of degree propagation passes (`None` = unlimited) and
+    /// reset the pass counter.
+    pub fn set_degree_budget(budget: Option<usize>) {
+        DEGREE_BUDGET.with(|b| b.set(budget));
+        DEGREE_PASSES.with(|p| p.set(0));
+    }
+
+    /// Returns the number of (value, degree) passes run since the budgets were set.
+    pub fn passes_run() -> (usize, usize) {
+        (VALUE_PASSES.with(|p| p.get()), DEGREE_PASSES.with(|p| p.get()))
+    }
+
+    pub(super) fn value_pass_allowed() -> bool {
+        let run = VALUE_PASSES.with(|p| p.get());
+        match VALUE_BUDGET.with(|b| b.get()) {
+            Some(budget) if run >= budget => false,
+            _ => {
+                VALUE_PASSES.with(|p| p.set(run + 1));
+                true
+            }
+        }
+    }
+
+    pub(super) fn degree_pass_allowed() -> bool {
+        let run = DEGREE_PASSES.with(|p| p.get());
+        match DEGREE_BUDGET.with(|b| b.get()) {
+            Some(budget) if run >= budget => false,
+            _ => {
+                DEGREE_PASSES.with(|p| p.set(run + 1));
+                true
+            }
+        }
+    }
+}
+
 #[derive(Clone)]
 pub enum DefinitionType {
     Function,
@@ -463,6 +518,10 @@ impl Cfg {
         let mut rerun = true;
         let start = Instant::now();
         while rerun {
+            #[cfg(feature = "verif")]
+            if !verif_hooks::degree_pass_allowed() {
+                break;
+            }
             // Rerun degree propagation if a single child node was updated.
             rerun = false;
             for basic_block in self.iter_mut() {
@@ -483,6 +542,10 @@ impl Cfg {
         let mut rerun = true;
         let start = Instant::now();
         while rerun {
+            #[cfg(feature = "verif")]
+            if !verif_hooks::value_pass_allowed() {
+                break;
+            }
             // Rerun value propagation if a single child node was updated.
             rerun = false;
             for basic_block in self.iter_mut() {
